@@ -330,6 +330,9 @@ func (x *X) queryOracles(o *Outcome, op Op, st *store.Store) {
 	if o.ClientPanic != "" {
 		x.Viol("C13", "client-panic", "client-panic:"+firstFrame(o.ClientPanic), "panic escaped query creation/Exec on the caller's goroutine: "+o.ClientPanic)
 	}
+	if o.CancelPanic != "" {
+		x.Viol("C13", "client-panic", "cancel-panic:"+firstFrame(o.CancelPanic), fmt.Sprintf("%s: panic inside Cancel()/Close() called from a second goroutine while the query %s: %s", op.Q, map[bool]string{true: "was executing", false: "had returned"}[o.ExecEnd == 0], o.CancelPanic))
+	}
 	for k, d := range o.Contract {
 		x.Viol("C18", "contract", k, d)
 	}
